@@ -9,6 +9,11 @@ ops (all numbers are ticks of the fake base clock):
                                 `panic` for a Resume without Suspend (state unchanged)
 * `ctx t0 d`                 -> `instant reason dur`      NewContextWithTimeout at `t0`, never cancelled
 * `ctx t0 d tc pre`          -> `instant reason dur`      … cancelled at `tc` (`pre`=1: cancellation wins a tie with an expiry)
+* `ctxl t0 d tc pre g dlLate dlPre late1 pos1 late2 pos2 …`
+                             -> `instant reason dur stamp`  … with expiries handled late: the k-th base timer expiry
+                                is handled `late_k <= g` after its stamp, after `pos_k` calls of the timeline; the
+                                base deadline is delivered `dlLate` late (`dlPre`=1: before a timer handled at the
+                                same instant); `bad-oracle` when a position does not fit
 * `unsusp a b`               -> `n`                       specification-side unsuspended time in `[a,b)`
 * `total t`                  -> `n`                       getTotalUnsuspendedNow at `t`
 -/
@@ -23,9 +28,20 @@ structure DS where
 def showReason : Reason → String
   | .timeout => "timeout" | .capped => "capped" | .cancelled => "cancelled"
 
-def showResult : Option Result → String
-  | none => "out-of-fuel"
-  | some r => s!"{r.instant} {showReason r.reason} {r.dur}"
+def showResult : Out → String
+  | .outOfFuel => "out-of-fuel"
+  | .badOracle => "bad-oracle"
+  | .done r => s!"{r.instant} {showReason r.reason} {r.dur}"
+
+def showResultL : Out → String
+  | .outOfFuel => "out-of-fuel"
+  | .badOracle => "bad-oracle"
+  | .done r => s!"{r.instant} {showReason r.reason} {r.dur} {r.stamp}"
+
+def pairs : List Nat → Option (List Delivery)
+  | [] => some []
+  | l :: p :: rest => (pairs rest).map (fun ds => ⟨l, p⟩ :: ds)
+  | _ => none
 
 def addEv (s : DS) (e : Ev) : DS × String :=
   if e.time < s.last then (s, "bad-op")
@@ -61,6 +77,12 @@ def step (s : DS) (ws : List String) : DS × String :=
       if tc < t0 || pre > 1 then (s, "bad-op")
       else (s, showResult (fire s.P s.tl (some ⟨tc, pre == 1⟩) t0 d))
     | _, _, _, _ => (s, "bad-op")
+  | "ctxl" :: t0 :: d :: tc :: pre :: g :: dlLate :: dlPre :: rest =>
+    match natList [t0, d, tc, pre, g, dlLate, dlPre], (natList rest).bind pairs with
+    | some [t0, d, tc, pre, g, dlLate, dlPre], some dv =>
+      if tc < t0 || pre > 1 || dlPre > 1 then (s, "bad-op")
+      else (s, showResultL (fireL s.P g s.tl (some ⟨tc, pre == 1⟩) t0 d dlLate (dlPre == 1) dv))
+    | _, _ => (s, "bad-op")
   | ["unsusp", a, b] =>
     match a.toNat?, b.toNat? with
     | some a, some b => (s, toString (unsuspended s.tl a b))
